@@ -524,6 +524,9 @@ func TestC08Stall(t *testing.T) {
 		}
 		d := time.Duration(rapid.IntRange(1, 5000).Draw(rt, "deadline_ms")) * time.Millisecond
 		kind := rapid.IntRange(0, 1).Draw(rt, "ctxkind")
+		// a stalled client may well not be reading either: whatever NewConn writes then
+		// blocks until a write deadline
+		peerNotReading := rapid.Bool().Draw(rt, "peer_not_reading")
 		for off := 0; off < len(record); off++ {
 			var viol string
 			// real-time watchdog around the bubble: a read loop that spins (instead of blocking)
@@ -531,6 +534,7 @@ func TestC08Stall(t *testing.T) {
 			watch("C08", map[string]any{"keys": keysReplay([]*hello.Key{sc.Key}), "client_stream": hx(record[:off]), "deadline_ms": d.Milliseconds(), "expect": "stall"}, func() {
 				synctest.Test(t, func(t *testing.T) {
 					tr := wire.New(record[:off], nil)
+					tr.BlockWrites = peerNotReading
 					var ctx context.Context
 					var cancel context.CancelFunc
 					if kind == 0 {
@@ -575,6 +579,9 @@ func TestC08Stall(t *testing.T) {
 			rec.Class("stall_offset")
 		}
 		rec.Class("stall_hello")
+		if peerNotReading {
+			rec.Class("stall_peer_not_reading")
+		}
 	})
 }
 
